@@ -86,7 +86,7 @@ fn reg_finish_case(ids_case: u8) {
     }
 }
 
-fn login_finish_case(ids_case: u8, has_ctx: bool) {
+fn login_finish_case(ids_case: u8, has_ctx: bool, part: u8) {
     let st = any_bytes::<69>(); // blind | request(35) | client_e_sk | client_nonce
     let rb = any_bytes::<117>(); // evaluated | masking_nonce(32) | masked(42) | server_nonce(32) server_e_pk(2) mac(8)
     let pw = any_bytes::<2>();
@@ -125,17 +125,22 @@ fn login_finish_case(ids_case: u8, has_ctx: bool) {
     let rec = ss::recover_credentials(&rpwd, &rb[1..33], &rb[33..75], id_u, id_s);
     match r {
         Ok(res) => {
-            check!(!reflected, "a reflected OPRF value is refused");
-            check!(!ksf_fail, "a failing stretching function is not ignored");
-            check!(unsafe { KSF_CALLS } == 1 && unsafe { KSF_LAST_TAG } == eff_tag, "the caller's stretching instance (or the default) is used exactly once");
-            check!(outcome == 0, "no result is released when the key exchange rejects the server's MAC");
+            if part == 0 || part == 1 {
+                check!(!reflected, "a reflected OPRF value is refused");
+                check!(!ksf_fail, "a failing stretching function is not ignored");
+                check!(unsafe { KSF_CALLS } == 1 && unsafe { KSF_LAST_TAG } == eff_tag, "the caller's stretching instance (or the default) is used exactly once");
+                check!(outcome == 0, "no result is released when the key exchange rejects the server's MAC");
+                check!(matches!(rec, ss::Recovered::Ok { .. }), "login completes although credential recovery must fail (wrong password / tampered response)");
+            }
             match rec {
                 ss::Recovered::Ok { server_pk, client_sk, client_pk, export_key } => {
-                    check!(eq_bytes(&res.export_key, &export_key), "export key recovered per RFC 9807 4.1.3");
-                    check!(eq_bytes(&res.server_s_pk.serialize(), &server_pk), "the server public key returned is the unmasked (and envelope-authenticated) one");
-                    check!(eq_bytes(&res.session_key, &sess) && eq_bytes(&res.message.serialize(), &mac3), "session key and finalization are the key exchange's outputs");
+                    if part == 0 || part == 2 {
+                        check!(eq_bytes(&res.export_key, &export_key), "export key recovered per RFC 9807 4.1.3");
+                        check!(eq_bytes(&res.server_s_pk.serialize(), &server_pk), "the server public key returned is the unmasked (and envelope-authenticated) one");
+                        check!(eq_bytes(&res.session_key, &sess) && eq_bytes(&res.message.serialize(), &mac3), "session key and finalization are the key exchange's outputs");
+                    }
                     // what the key exchange was given
-                    unsafe {
+                    if part == 0 || part == 3 { unsafe {
                         check!(REC.calls == 1 && !REC.overflow, "the key exchange is run once");
                         check!(parts_are(&REC.l1, &[&st[1..2], &st[2..36]]), "the client's own request (blinded element, KE1 message) goes into the transcript");
                         check!(parts_are(&REC.l2, &[&rb[0..1], &rb[1..33], &rb[33..65], &rb[65..73], &rb[73..75]]), "evaluation, masking nonce and masked response go into the transcript");
@@ -149,17 +154,18 @@ fn login_finish_case(ids_case: u8, has_ctx: bool) {
                         check!(parts_are(&REC.id_s, &[&[0u8, es.len() as u8], es]), "effective server identity (length-prefixed) goes into the transcript");
                         let ec: &[u8] = if has_ctx { &ctx } else { &[] };
                         check!(REC.ctx_len == ec.len() && eq_bytes(&REC.ctx[..ec.len()], ec), "the caller's context (absent = empty) goes into the transcript");
-                    }
+                    } }
                     cover!(true, "ok");
                 }
-                ss::Recovered::Invalid => {
-                    check!(false, "login completes although credential recovery must fail (wrong password / tampered response)");
-                }
+                ss::Recovered::Invalid => {}
             }
             core::mem::forget(res);
         }
         Err(e) => {
             let recover_ok = matches!(rec, ss::Recovered::Ok { .. });
+            if part == 2 || part == 3 {
+                return;
+            }
             check!(reflected || ksf_fail || !recover_ok || outcome != 0, "login finish succeeds on the genuine response");
             if reflected {
                 check!(matches!(e, ProtocolError::ReflectedValueError), "reflection is reported as such");
@@ -369,15 +375,15 @@ harnesses! {
     #[cfg_attr(kani, kani::stub(crate::opaque::get_password_derived_key, crate::verif_kani::w_stubs::gpdk))]
     #[cfg_attr(kani, kani::stub(crate::opaque::unmask_response, crate::verif_kani::w_stubs::unmask))]
     #[cfg_attr(kani, kani::stub(crate::envelope::Envelope::open, crate::envelope::Envelope::verif_open_stub))]
-    fn w3_client_login_finish_default_ids [unwind = 120] { login_finish_case(0, false); }
+    fn w3_client_login_finish_default_ids [unwind = 120] { login_finish_case(0, false, 0); }
     #[cfg_attr(kani, kani::stub(crate::opaque::get_password_derived_key, crate::verif_kani::w_stubs::gpdk))]
     #[cfg_attr(kani, kani::stub(crate::opaque::unmask_response, crate::verif_kani::w_stubs::unmask))]
     #[cfg_attr(kani, kani::stub(crate::envelope::Envelope::open, crate::envelope::Envelope::verif_open_stub))]
-    fn w3_client_login_finish_explicit_ids_ctx [unwind = 120] { login_finish_case(1, true); }
+    fn w3_client_login_finish_explicit_ids_ctx [unwind = 120] { login_finish_case(1, true, 0); }
     #[cfg_attr(kani, kani::stub(crate::opaque::get_password_derived_key, crate::verif_kani::w_stubs::gpdk))]
     #[cfg_attr(kani, kani::stub(crate::opaque::unmask_response, crate::verif_kani::w_stubs::unmask))]
     #[cfg_attr(kani, kani::stub(crate::envelope::Envelope::open, crate::envelope::Envelope::verif_open_stub))]
-    fn w3_client_login_finish_mixed_ids [unwind = 120] { login_finish_case(2, true); }
+    fn w3_client_login_finish_mixed_ids [unwind = 120] { login_finish_case(2, true, 0); }
 
     #[cfg_attr(kani, kani::stub(crate::opaque::mask_response, crate::verif_kani::w_stubs::mask))]
     #[cfg_attr(kani, kani::stub(crate::opaque::oprf_key_from_seed, crate::verif_kani::w_stubs::oprf_key))]
@@ -397,4 +403,19 @@ harnesses! {
     #[cfg_attr(kani, kani::stub(crate::opaque::mask_response, crate::verif_kani::w_stubs::mask))]
     #[cfg_attr(kani, kani::stub(crate::opaque::oprf_key_from_seed, crate::verif_kani::w_stubs::oprf_key))]
     fn w2_server_login_start_external_key_unregistered [unwind = 120] { server_login_start_external(false); }
+
+    // W3 split three ways (same run of the real ClientLogin::finish; each harness decides one group of assertions, so that the
+    // three SAT problems run in parallel and each fits the quick tier)
+    #[cfg_attr(kani, kani::stub(crate::opaque::get_password_derived_key, crate::verif_kani::w_stubs::gpdk))]
+    #[cfg_attr(kani, kani::stub(crate::opaque::unmask_response, crate::verif_kani::w_stubs::unmask))]
+    #[cfg_attr(kani, kani::stub(crate::envelope::Envelope::open, crate::envelope::Envelope::verif_open_stub))]
+    fn w3a_login_finish_decision [unwind = 120] { login_finish_case(0, false, 1); }
+    #[cfg_attr(kani, kani::stub(crate::opaque::get_password_derived_key, crate::verif_kani::w_stubs::gpdk))]
+    #[cfg_attr(kani, kani::stub(crate::opaque::unmask_response, crate::verif_kani::w_stubs::unmask))]
+    #[cfg_attr(kani, kani::stub(crate::envelope::Envelope::open, crate::envelope::Envelope::verif_open_stub))]
+    fn w3b_login_finish_outputs [unwind = 120] { login_finish_case(0, false, 2); }
+    #[cfg_attr(kani, kani::stub(crate::opaque::get_password_derived_key, crate::verif_kani::w_stubs::gpdk))]
+    #[cfg_attr(kani, kani::stub(crate::opaque::unmask_response, crate::verif_kani::w_stubs::unmask))]
+    #[cfg_attr(kani, kani::stub(crate::envelope::Envelope::open, crate::envelope::Envelope::verif_open_stub))]
+    fn w3c_login_finish_ke_args [unwind = 120] { login_finish_case(1, true, 3); }
 }
